@@ -25,6 +25,12 @@ section it leads to (the decision itself touches no shared state).
 * `envCancel t`, `envErr t m`    the harness cancels the context of call `t` / sends on or closes its errCh
 * `quiesce B A`                  nothing moves; `B` pending calls, `A` jobs in progress
 
+The wait channel of the `Broadcast` is allocated eagerly (`bcast` = `broadcast` followed by
+`getWaitCh`, and the initial state already has channel 0) instead of lazily at the first `getWaitCh`
+after a broadcast: channel identities are not observable, only whether a channel obtained earlier
+has been closed since, and the eager form keeps the model state canonical (no dependence on *when*
+somebody first asked for the channel), which keeps the state sets of the inclusion check small.
+
 The job queue (`linkedlist.LinkedList`, property C12) is abstracted as a `List` of job ids: `Push` =
 append, `Pop` = head. `running`, `jobQueueSize` and the limit are `Int` as in the code. Ghost fields
 (`seq`, `nseq`, `nasg`) number the jobs in the order of their enqueue sections and count assignments.
@@ -90,7 +96,7 @@ structure St where
   running : Int := 0
   qsize : Int := 0
   queue : List Nat := []
-  bc : Bcast := {}
+  bc : Bcast := { cur := some 0, next := 1 }
   jobs : List Job := []
   ws : List WSt := []
   th : List TS := []
@@ -178,6 +184,9 @@ def evsOf (s : St) : Obs → List Ev
 
 /-- may another worker be started? (queue.go:49, 139) -/
 def hasRoom (s : St) : Bool := decide (s.limit ≤ 0 ∨ s.running < s.limit)
+
+/-- `broadcast()`; the next wait channel is allocated at once (see the header) -/
+def bcast (b : Bcast) : Bcast := b.broadcast.getWaitCh.1
 
 def setJob (jobs : List Job) (j : Nat) (st : JS) (seq : Option Nat) : List Job :=
   match jobs[j]? with
@@ -274,7 +283,7 @@ def step (s : St) : Ev → Option St
       let s1 : St := { s with created := true, limit := L, jobs := s.jobs ++ newJobs js, th := s.th ++ [.newDone] }
       let s2 := (js.map (·.1)).foldl pushInit s1
       let s3 := update s2 s2.queue.length
-      some (if s3.nasg ≠ s2.nasg then { s3 with bc := s3.bc.broadcast } else s3)
+      some (if s3.nasg ≠ s2.nasg then { s3 with bc := bcast s3.bc } else s3)
     else none
   | .retNew t =>
     match s.th[t]? with
@@ -288,7 +297,7 @@ def step (s : St) : Ev → Option St
     match s.th[t]? with
     | some (.enqInv js) =>
       let s1 := js.foldl place s
-      some { s1 with bc := if js.isEmpty then s1.bc else s1.bc.broadcast,
+      some { s1 with bc := if js.isEmpty then s1.bc else bcast s1.bc,
                      th := s1.th.set t (.enqDone s1.qsize s1.running) }
     | _ => none
   | .retEnq t q r =>
@@ -318,7 +327,7 @@ def step (s : St) : Ev → Option St
     match s.ws[w]? with
     | some .afterJob =>
       match s.queue with
-      | [] => some { s with running := s.running - 1, bc := s.bc.broadcast, ws := s.ws.set w .retired }
+      | [] => some { s with running := s.running - 1, bc := bcast s.bc, ws := s.ws.set w .retired }
       | j :: rest =>
         some { s with queue := rest, qsize := s.qsize - 1, ws := s.ws.set w (.hasJob j),
                       jobs := setJobSt s.jobs j .assigned, nasg := s.nasg + 1 }
@@ -379,9 +388,43 @@ def step (s : St) : Ev → Option St
   | .quiesce B A =>
     if quiescent s ∧ B = pendingIds s ∧ A = activeJobs s then some s else none
 
-def cands (s : St) : List Ev :=
+def allCands (s : St) : List Ev :=
   ((List.range s.th.length).flatMap fun t => [.enqCS t, .wiCS t, .wiCtx t, .wiErr t, .wsCS t, .wsCtx t]) ++
   ((List.range s.ws.length).flatMap fun w => [.skipNil w, .popCS w])
+
+/-- An internal event that may be taken first without losing any observable behaviour: a `WaitIdle`
+sample that finds the queue busy (it only re-parks the caller on the current channel; whether the
+queue is idle changes only in sections that broadcast), or a worker skipping a nil job. Exploring
+only this event in such a state is a partial-order reduction of the *search* (`cands`); the
+transition system itself (`step`) and every theorem about it are unaffected, and `accepts_sound`
+holds for any `cands`. -/
+def wiEager (s : St) (t : Nat) : Bool :=
+  let busy := !(s.running == 0 && s.qsize == 0)
+  match s.th[t]? with
+  | some .wiInv => busy
+  | some (.wiParked ch) => busy && s.bc.closed ch
+  | _ => false
+
+def nilEager (s : St) (w : Nat) : Bool :=
+  match s.ws[w]? with
+  | some (.hasJob j) =>
+    match s.jobs[j]? with
+    | some jb => jb.isNil
+    | none => false
+  | _ => false
+
+def eagerEvent (s : St) : Option Ev :=
+  match (List.range s.th.length).find? (wiEager s) with
+  | some t => some (.wiCS t)
+  | none =>
+    match (List.range s.ws.length).find? (nilEager s) with
+    | some w => some (.skipNil w)
+    | none => none
+
+def cands (s : St) : List Ev :=
+  match eagerEvent s with
+  | some e => [e]
+  | none => allCands s
 
 def model : OLTS St Ev Obs where
   init := {}
